@@ -14,6 +14,43 @@ from rules import common, c04, c15
 
 LEVEL = "fault_enumeration"
 MEMO_FIELDS = {"_Vertex__qa_nb_cache"}
+PICKLER_STUB = '''
+class Pickler:
+    """stand-in for dill.Pickler on arbitrary object graphs: the object protocol (class + state), containers element-wise,
+    references to objects already memoised"""
+    def __init__(self, file, **kwargs):
+        self.file = file
+        self.proto = kwargs.get("protocol") or 4
+        self.write = file.write
+        self.memo = []
+    def save(self, obj, save_persistent_id=None):
+        if obj is None or isinstance(obj, (int, str, float, bool)):
+            self.write("ATOM")
+            return
+        for m in self.memo:
+            if m is obj:
+                self.write("REF")
+                return
+        self.write("OPEN")
+        self.memoize(obj)
+        if isinstance(obj, (list, tuple, set, frozenset)):
+            for x in obj:
+                self.save(x)
+        elif isinstance(obj, dict):
+            for k, v in obj.items():
+                self.save(k)
+                self.save(v)
+        elif isinstance(obj, type) or callable(obj):
+            self.write("GLOBAL")
+        else:
+            state = obj.__getstate__() if hasattr(obj, "__getstate__") else vars(obj)
+            self.save(type(obj))
+            self.save(state)
+        self.write("CLOSE")
+    def memoize(self, obj):
+        self.memo.append(obj)
+        self.write("MEMO")
+'''
 
 
 def proj(v, depth=0):
@@ -76,9 +113,19 @@ def entry_points(h, rec):
     eps.append(("make_pyvis_net", "edgegraph.output.pyvis.make_pyvis_net", ("rvfunc", "refunc"), lambda g, cb: pyvis_call(h, rec, mk, g, cb)))
     pc = f("edgegraph.output.pyvis.pyvis_render_customizable")
     eps.append(("pyvis_render_customizable", "edgegraph.output.pyvis.pyvis_render_customizable", ("rvfunc", "refunc"), lambda g, cb: pyvis_call(h, rec, pc, g, cb)))
+    dumps = h.w.mods["edgegraph.output.nrpickler"].globals.get("dumps")
+    if dumps is not None:
+        eps.append(("nrpickler.dumps", "edgegraph.output.nrpickler.dumps", (), lambda g, cb: _len_only(h.call(dumps, g.V["a"]))))
+        eps.append(("nrpickler.dumps(universe)", "edgegraph.output.nrpickler.dumps", (), lambda g, cb: _len_only(h.call(dumps, g.U))))
     pu = f("edgegraph.output.plantuml.render_to_plantuml_src")
     eps.append(("render_to_plantuml_src", "edgegraph.output.plantuml.render_to_plantuml_src", ("user_render_func",), lambda g, cb: plantuml_call(h, pu, g, cb)))
     return eps
+
+
+def _len_only(out):
+    if out.kind == "return" and isinstance(out.value, Seq):
+        out.value = f"<stream of {len(out.value.items)} operations>"
+    return out
 
 
 def pyvis_call(h, rec, fn, g, cb):
@@ -161,12 +208,20 @@ def run(ctx):
                      "distinct = (entry point, caching, fault position)")
     res.trusted_base = common.TRUSTED_AE + ["the neighbour memo and cache statistics are not observable structure (excluded from the heap comparison)"]
     res.assumptions = ["callbacks and third-party libraries do not themselves mutate the graph", "_resolve_options compiling show_attrs inside the caller's *options* dict is outside the property (not a vertex, link or universe)",
-                       "nrpickler.dumps is covered by the PURE effect rule only (dill is external)"]
+                       "nrpickler.dumps is evaluated with dill.Pickler replaced by a stand-in that walks the object graph through the object protocol (class + instance state)"]
     rec = c15.Recorder(None)
     h = H(ctx.src, ["edgegraph.traversal.helpers", "edgegraph.traversal.breadthfirst", "edgegraph.traversal.depthfirst", "edgegraph.output.plaintext"])
     h.w.ext_overrides["pyvis.network.Network"] = Builtin("pyvis.network.Network", lambda I, *a, **k: rec.network(I, *a, **k))
+    stub = h.w.load_text("verif_c13_pickler", PICKLER_STUB).globals
+    h.w.ext_overrides["dill.Pickler"] = stub["Pickler"]
+
+    def bytesio(I, *a, **k):
+        return ExtV("io.BytesIO", methods={"write": lambda I_, f_, data: f_.attrs["events"].append(data), "getvalue": lambda I_, f_: Seq(list(f_.attrs["events"]), "list"), "__strict__": True}, attrs={"events": []})
+
+    h.w.ext_overrides["io.BytesIO"] = Builtin("io.BytesIO", bytesio)
     h.w.load("edgegraph.output.pyvis")
     h.w.load("edgegraph.output.plantuml")
+    h.w.load("edgegraph.output.nrpickler")
     h.w.snapshot()
     rec.h = h
     MEMO_FIELDS.add(h.actual["memo"])      # the memo field as it is called in this tree
